@@ -547,6 +547,43 @@ impl Ctx {
         }
     }
 
+    /// Reference under a defect model, asked for *after* the real step: the bytes the step wrote are put back to
+    /// their pre-step content for the evaluation (the shadow still holds it), so that an instruction that stored
+    /// over its own code or operands is judged on what was there when it was fetched.
+    pub fn reference_pre(&mut self, c: &Case, d: &Defects) -> (Decoded, RefOut) {
+        self.with_pre_state(|me| me.reference(c, d))
+    }
+
+    /// Run `f` with every byte the last real step wrote put back to its pre-step content (the shadow still holds
+    /// it), then restore the post-step content.
+    pub fn with_pre_state<R>(&mut self, f: impl FnOnce(&mut Self) -> R) -> R {
+        let mut saved: Vec<(u32, u8)> = Vec::new();
+        for k in 0..self.wlog.len() {
+            let a = self.wlog[k];
+            if let (Some(cur), Some(pre)) = (self.m.peek(a), self.m.peek_shadow(a)) {
+                if cur != pre && !saved.iter().any(|x| x.0 == a) {
+                    saved.push((a, cur));
+                    if let Some(s) = self.m.real_slot(a) {
+                        *s = pre;
+                    }
+                }
+            }
+        }
+        if !saved.is_empty() {
+            self.last_key = (0xffff_ffff, 0);
+        }
+        let r = f(self);
+        for (a, v) in saved.iter() {
+            if let Some(s) = self.m.real_slot(*a) {
+                *s = *v;
+            }
+        }
+        if !saved.is_empty() {
+            self.last_key = (0xffff_ffff, 0);
+        }
+        r
+    }
+
     /// Execute the case on the real CPU (set-up must already be in memory).
     pub fn execute(&mut self, c: &Case) -> Actual {
         let cpu = &mut self.m.cpu;
@@ -789,7 +826,7 @@ impl Ctx {
                             && matches!(&act, Actual::Panic(p) if is_fetch_unwrap_panic(p))
                             && ((0..10u32).any(|k| !sem::mapped((c.pc & !1).wrapping_add(k))) || c.pc > sem::M24))
                 } else {
-                    let (_, ro2) = self.reference(c, &d);
+                    let (_, ro2) = self.reference_pre(c, &d);
                     let ok = self.compare(c, &ro2, &act).is_none();
                     if ok {
                         ro_expl = Some(ro2);
@@ -805,7 +842,7 @@ impl Ctx {
                 let ks: Vec<&str> = keys.iter().map(|s| s.as_str()).collect();
                 let mut d = Defects::from_keys(&ks);
                 d.fetch_unwrap = false;
-                let (_, ro2) = self.reference(c, &d);
+                let (_, ro2) = self.reference_pre(c, &d);
                 if self.compare(c, &ro2, &act).is_none() {
                     explained = Some(keys.join("+"));
                     ro_expl = Some(ro2);
@@ -1227,10 +1264,10 @@ impl Ctx {
                             let mut rest = self.refq.clone();
                             rest.remove(k);
                             rest.sort();
-                            let ro_v = {
-                                let mem = RealMem(&self.m);
+                            let ro_v = self.with_pre_state(|me| {
+                                let mem = RealMem(&me.m);
                                 sem::interrupt_entry(&RefIn { er: c.er, ccr: c.ccr, pc: c.pc }, &mem, v as u32)
-                            };
+                            });
                             let fits = self.compare(&c, &ro_v, &actual).is_none();
                             if fits && (!self.track_queue || rest == real) {
                                 chosen = Some(k);
@@ -1263,7 +1300,7 @@ impl Ctx {
                     if d.fetch_unwrap {
                         continue;
                     }
-                    let (_, ro2) = self.reference(&c, &d);
+                    let (_, ro2) = self.reference_pre(&c, &d);
                     if self.compare(&c, &ro2, &actual).is_none() {
                         if !self.frozen && ki >= own {
                             *self.st.notes.entry(format!("steps explained by a known finding of another property ({})", k)).or_insert(0) += 1;
@@ -1338,7 +1375,7 @@ impl Ctx {
                     if d.fetch_unwrap {
                         continue;
                     }
-                    let (_, ro2) = self.reference(&c, &d);
+                    let (_, ro2) = self.reference_pre(&c, &d);
                     for w in ro2.writes.as_slice() {
                         alt_writes.push(w.addr);
                     }
